@@ -43,6 +43,8 @@ def run(chk, repo):
     save_regs(chk, repo)
     chk.doc("R04.6", "bit-field stores keep the neighbours in the byte")
     bitfields(chk, repo)
+    chk.doc("R04.7", "addresses are computed, never remembered")
+    stateless_addresses(chk, repo)
     # array-map cells are variables too: the layout rules of C08 are
     # necessary conditions of this property as well
     chk.doc("R08.1", "array map: single source of layout")
@@ -142,6 +144,35 @@ def bitfields(chk, repo):
            f"byte ({rows} field/value combinations by abstract execution, "
            f"every old byte)", not bad, br[0], "; ".join(bad[:3]) or
            "new = value << pos within the field, old outside")
+
+
+def stateless_addresses(chk, repo):
+    """R04.7: where a variable lives is computed from the declaration and
+    the program it is used in every time it is asked for: no fmt_addr in
+    the package stores anything (a frame base or an offset remembered on an
+    instance is stale as soon as the instance is used in another program
+    or layout, and the variable then lies on top of another one)"""
+    n = 0
+    for ci in sorted(repo.classes.values(), key=lambda c: c.qualname):
+        fa = ci.methods.get("fmt_addr")
+        if fa is None or ci.module.name.endswith("_test"):
+            continue
+        n += 1
+        stores = [st for st in walk_no_nested(fa) if isinstance(
+            st, (ast.Assign, ast.AugAssign, ast.AnnAssign)) and any(
+                isinstance(t, (ast.Attribute, ast.Subscript))
+                for t in (st.targets if isinstance(st, ast.Assign)
+                          else [st.target]))] + [
+            st for st in walk_no_nested(fa) if isinstance(
+                st, (ast.Global, ast.Nonlocal))]
+        memo = [d for d in fa.decorator_list if unparse(d).split("(")[
+            0].split(".")[-1] in ("cache", "lru_cache", "cached_property")]
+        chk.ob("R04.7", ci.qualname + ".fmt_addr", "computes the address "
+               "afresh, storing nothing", not stores and not memo,
+               stores[0] if stores else fa,
+               f"`{unparse(stores[0])[:60]}` remembers a value across calls"
+               if stores else ("memoised" if memo else "no stores"))
+    chk.floor("R04.7", "fmt_addr implementations", n, 5)
 
 
 def subprogram_locals(chk, repo):
